@@ -1,5 +1,6 @@
 import B2Z.Model.RegionIndex
 import B2Z.Proofs.RegionIndex
+import B2Z.Gen.RegionIndex
 /-! # C12 — the region index exactly summarises the stored variants
 
 Model: `B2Z.RIdx` (`Model/RegionIndex.lean`), a transcription of `VcfZarrWriter.create_index`.
@@ -93,6 +94,37 @@ theorem C12_region_index_exact (cs : Nat) (xs : List Rec) (hno : NoOverflow 32 x
   intro s hs
   obtain ⟨hne, hmem⟩ := segments_mem cs xs s hs
   exact C12_row_exact 32 (by decide) s.1 s.2 hne fun r hr => hno r (hmem r hr)
+
+theorem NoOverflow.mono (xs : List Rec) (b : Nat) (hb : 32 ≤ b) (h : NoOverflow 32 xs) : NoOverflow b xs := by
+  intro r hr
+  have := h r hr
+  have hn : (2 : Nat) ^ (32 - 1) ≤ 2 ^ (b - 1) := Nat.pow_le_pow_right (by decide) (by omega)
+  have hp : (2 : Int) ^ (32 - 1) ≤ (2 : Int) ^ (b - 1) := by exact_mod_cast hn
+  omega
+
+/-- (6') the same for every evaluation width of at least 32 bits -/
+theorem C12_region_index_exact_wide (bits : Nat) (hb : 32 ≤ bits) (cs : Nat) (xs : List Rec)
+    (hno : NoOverflow 32 xs) :
+    regionIndex bits cs xs = (segments cs xs).map fun s =>
+      { chunk := s.1, contig := (s.2.headD default).contig, first := (s.2.headD default).pos,
+        last := (s.2.getLastD default).pos, maxEnd := exactMaxEnd s.2, count := s.2.length } := by
+  have hno' := NoOverflow.mono xs bits hb hno
+  unfold regionIndex
+  apply List.map_congr_left
+  intro s hs
+  obtain ⟨hne, hmem⟩ := segments_mem cs xs s hs
+  exact C12_row_exact bits (by omega) s.1 s.2 hne fun r hr => hno' r (hmem r hr)
+
+/-- translator tie (`Gen/RegionIndex.lean`, regenerated from `create_index` on every run): the
+    source evaluates the end coordinate, and stores the index, in a dtype at least 32 bits wide -/
+theorem C12_bridge_width : 32 ≤ Gen.ridxEndBits ∧ 32 ≤ Gen.ridxIndexBits := by decide
+
+/-- (6) for the width the current source uses -/
+theorem C12_region_index_exact_src (cs : Nat) (xs : List Rec) (hno : NoOverflow 32 xs) :
+    regionIndex Gen.ridxEndBits cs xs = (segments cs xs).map fun s =>
+      { chunk := s.1, contig := (s.2.headD default).contig, first := (s.2.headD default).pos,
+        last := (s.2.getLastD default).pos, maxEnd := exactMaxEnd s.2, count := s.2.length } :=
+  C12_region_index_exact_wide _ C12_bridge_width.1 cs xs hno
 
 /-- finding F1 (fixed): evaluated in `int8`, positions `[10,100,120]` with lengths `[1,100,1]`
     report a maximum end of 120 instead of 199 -/
